@@ -98,6 +98,11 @@ pub enum Present {
     Older(u8),
     None,
     Garbage,
+    /// a well-formed session cookie that this server never issued: the plain JSON payload with a
+    /// made-up id (and, `true`, a client-side value), as any client can write it. A processor that
+    /// signs or encrypts the session cookie throws it away; one that does not hands it to the
+    /// session machinery as a returning session
+    Forged(bool),
 }
 
 #[derive(Serialize, Deserialize, Clone, Debug, PartialEq)]
@@ -173,6 +178,11 @@ pub struct Script {
     /// algorithm and key, the previous algorithm and key kept as a fallback for incoming cookies
     #[serde(default)]
     pub crypto_switch: Option<(usize, Crypto)>,
+    /// from this request on the application runs with other cookie attributes (secure, http_only,
+    /// same_site code, persistent): the configuration that has been in use is CLONED and the clone is
+    /// changed in place, as a hot reload of the configuration would do
+    #[serde(default)]
+    pub cookie_switch: Option<(usize, bool, bool, u8, bool)>,
 }
 
 const SKEYS: [&str; 3] = ["a", "b", "c"];
@@ -594,7 +604,8 @@ fn parse_set_cookie(h: &str) -> SetCookie {
 }
 
 struct World<'a> {
-    cfg: &'a Cfg,
+    /// the configuration in force (the cookie attributes may change mid-history, see `cookie_switch`)
+    cfg: Cfg,
     arm: &'a str,
     config: SessionConfig,
     processor: Processor,
@@ -684,6 +695,7 @@ fn req_shape(cfg: &Cfg, r: &Req) -> String {
         Present::Older(_) => p.push_str("older:"),
         Present::None => p.push_str("nocookie:"),
         Present::Garbage => p.push_str("garbage:"),
+        Present::Forged(_) => p.push_str("forged:"),
     }
     p.push_str(&World::sig_ops(&r.ops));
     if r.fault.is_some() {
@@ -737,7 +749,7 @@ pub fn execute(script: &Script, _tape: &mut Tape, keep_log: bool) -> RunOut {
     let stalled = Arc::new(tokio::sync::Notify::new());
     let store = SessionStore::new(FaultyStore { inner: inner.clone(), plan: plan.clone(), stalled: stalled.clone() });
     let mut w = World {
-        cfg,
+        cfg: cfg.clone(),
         arm: &script.arm,
         config: build_config(cfg),
         processor: build_processor(cfg, &cfg.crypto, None),
@@ -764,6 +776,26 @@ pub fn execute(script: &Script, _tape: &mut Tape, keep_log: bool) -> RunOut {
                 w.crypto_now = c.clone();
                 w.switched = true;
                 w.out.count("processor_reconfigured", 1);
+            }
+        }
+        if let Some((at, secure, http_only, same_site, persistent)) = script.cookie_switch {
+            if at == ri {
+                let mut c2 = w.config.clone();
+                c2.cookie.secure = secure;
+                c2.cookie.http_only = http_only;
+                c2.cookie.same_site = match same_site {
+                    1 => Some(SameSite::Strict),
+                    2 => Some(SameSite::Lax),
+                    3 => Some(SameSite::None),
+                    _ => None,
+                };
+                c2.cookie.kind = if persistent { SessionCookieKind::Persistent } else { SessionCookieKind::Session };
+                w.config = c2;
+                w.cfg.secure = secure;
+                w.cfg.http_only = http_only;
+                w.cfg.same_site = same_site;
+                w.cfg.persistent = persistent;
+                w.out.count("cookie_attributes_reconfigured", 1);
             }
         }
         let rshape = req_shape(cfg, req);
@@ -806,6 +838,19 @@ fn run_request(w: &mut World<'_>, ri: usize, req: &Req, shape: &str) {
         }
         Present::None => None,
         Present::Garbage => None,
+        Present::Forged(with_value) => {
+            let id = format!("00000000-0000-4000-8000-0000000000{:02x}", ri.min(255));
+            let mut client = Map::new();
+            if *with_value {
+                client.insert("x".to_string(), Value::String("forged".into()));
+            }
+            let json = serde_json::json!({ "0": id, "1": client }).to_string();
+            let enc: String = json.bytes().map(|b| if b.is_ascii_alphanumeric() || b"-_.".contains(&b) { (b as char).to_string() } else { format!("%{b:02X}") }).collect();
+            w.model.all_ids.insert(id.clone());
+            w.model.written.entry("x".into()).or_default().insert(Value::String("forged".into()).to_string());
+            w.out.count("forged_cookie_presented", 1);
+            Some(JarEntry { header: format!("{}={}", w.cfg.cookie_name, enc), id, client })
+        }
     };
     let mut head = RequestHead { method: http::Method::GET, target: "/".parse().unwrap(), version: http::Version::HTTP_11, headers: http::HeaderMap::new() };
     match (&req.present, &presented) {
@@ -858,7 +903,10 @@ fn run_request(w: &mut World<'_>, ri: usize, req: &Req, shape: &str) {
         Err(_) => RequestCookies::new(),
     };
     let incoming = IncomingSession::extract(&cookies, &w.config.cookie);
-    if presented.is_some() && incoming.is_none() && w.switched {
+    if presented.is_some() && incoming.is_none() && (w.switched || matches!(req.present, Present::Forged(_))) {
+        if matches!(req.present, Present::Forged(_)) {
+            w.out.count("forged_cookie_discarded_by_the_processor", 1);
+        }
         // the new processor configuration cannot read the old cookie: a new session starts
         rm.presented = None;
         rm.srv = Srv::Loaded { exists: Tri::No, map: Map::new(), changed: false };
@@ -869,7 +917,6 @@ fn run_request(w: &mut World<'_>, ri: usize, req: &Req, shape: &str) {
         return;
     }
     // Move the pieces the async block needs out of `w` by reference.
-    let config = w.config.clone();
     let t_req_start = w.now();
     let mut vio: Vec<Violation> = Vec::new();
     let mut log: Vec<String> = Vec::new();
@@ -880,13 +927,16 @@ fn run_request(w: &mut World<'_>, ri: usize, req: &Req, shape: &str) {
     let panicked;
     {
         let store = &w.store;
+        // the application's configuration object itself, request after request (never a fresh copy:
+        // whatever the session machinery caches in it stays there)
+        let config = &w.config;
         let plan = &w.plan;
         let processor = &w.processor;
         let model = &mut w.model;
-        let cfgr = w.cfg;
+        let cfgr = &w.cfg;
         let arm = w.arm;
         let fut = async {
-            let mut session = Session::new(store, &config, incoming);
+            let mut session = Session::new(store, config, incoming);
             for (oi, op) in req.ops.iter().enumerate() {
                 apply_op(&mut session, op, &mut rm, model, cfgr, arm, ri, oi, shape, &mut vio, &mut log, &mut counters, plan).await;
             }
@@ -1008,6 +1058,15 @@ fn run_request(w: &mut World<'_>, ri: usize, req: &Req, shape: &str) {
         (Some(Ok(())), true) => {
             // a load failed earlier in the request and the handler carried on: treat like a failure
             w.out.count("finalize_ok_after_fault", 1);
+            // Whatever failed on the way: a REMOVAL cookie tells the client that the session is over,
+            // so the record must be gone by now (a store that could not delete it makes the request
+            // fail instead, and no cookie goes out).
+            if let (Some(c), Some(old)) = (session_cookie.as_ref().filter(|c| c.removal), rm.presented.clone()) {
+                w.out.count("removal_cookie_after_fault_checked", 1);
+                if let Some(m) = w.peek_live(&old) {
+                    w.out.violations.push(viol("C11", "invalidate", format!("removal cookie although the record survives (store fault) {shape}"), format!("req{ri}: a store call failed, the response nevertheless carries the removal cookie `{}`, and the store still serves {m:?} under the old id", c.name)));
+                }
+            }
             check_c12_cookie(w, ri, &rm, session_cookie.as_ref(), shape, true);
             adopt_after_failure(w, ri, &rm, session_cookie, shape);
         }
@@ -1603,16 +1662,19 @@ fn decode_cookie(w: &World<'_>, c: &SetCookie) -> Option<Wire> {
 /// C12 invariants 1 and 3 on an emitted cookie.
 fn check_c12_cookie(w: &mut World<'_>, ri: usize, rm: &ReqModel, c: Option<&SetCookie>, shape: &str, _faulted: bool) {
     let Some(c) = c else { return };
-    let cfg = w.cfg;
+    let cfg = w.cfg.clone();
+    let cfg = &cfg;
     let protected_enc = w.crypto_now == Crypto::Encrypt && cfg.rule_names_session_cookie;
     let protected_sig = w.crypto_now == Crypto::Sign && cfg.rule_names_session_cookie;
+    // a cookie under the session's name — the removal cookie included — is attached only if the
+    // processor signs or encrypts that name; otherwise the request fails
+    if !(protected_enc || protected_sig) {
+        w.out.violations.push(viol("C12", "cookie-protected", format!("unprotected cookie crypto={:?} names_session={} removal={}", w.crypto_now, cfg.rule_names_session_cookie, c.removal), format!("req{ri}: a {} cookie was attached although the processor neither signs nor encrypts `{}`", if c.removal { "removal" } else { "session" }, c.name)));
+    }
     if c.removal {
         w.out.count("removal_cookie_emitted", 1);
     } else {
         w.out.count("session_cookie_emitted", 1);
-        if !(protected_enc || protected_sig) {
-            w.out.violations.push(viol("C12", "cookie-protected", format!("unprotected cookie crypto={:?} names_session={}", w.crypto_now, cfg.rule_names_session_cookie), format!("req{ri}: a session cookie was attached although the processor neither signs nor encrypts `{}`", c.name)));
-        }
         let client_nonempty = !rm.inv && !rm.cli.is_empty();
         if client_nonempty && !protected_enc {
             w.out.violations.push(viol("C12", "client-state-encrypted", format!("plaintext client state crypto={:?}", w.crypto_now), format!("req{ri}: client-side state {:?} is non-empty but the cookie is not encrypted", rm.cli)));
@@ -1678,7 +1740,8 @@ fn check_c12_cookie(w: &mut World<'_>, ri: usize, rm: &ReqModel, c: Option<&SetC
 
 fn check_crypto_refusal(w: &mut World<'_>, ri: usize, rm: &ReqModel, err: &str, shape: &str) {
     // the refusal must be justified by the configuration
-    let cfg = w.cfg;
+    let cfg = w.cfg.clone();
+    let cfg = &cfg;
     let protected_enc = w.crypto_now == Crypto::Encrypt && cfg.rule_names_session_cookie;
     let protected_sig = w.crypto_now == Crypto::Sign && cfg.rule_names_session_cookie;
     let client_nonempty = !rm.inv && !rm.cli.is_empty();
@@ -2131,7 +2194,17 @@ impl Sim for SesSim {
                 }
             }
         }
-        Script { arm: arm.to_string(), cfg, reqs, crypto_switch }
+        for r in reqs.iter_mut() {
+            if rng.chance(1, if c12 { 10 } else { 25 }) {
+                r.present = Present::Forged(rng.chance(1, 2));
+            }
+        }
+        let cookie_switch = if c12 && reqs.len() >= 2 && rng.chance(1, 4) {
+            Some((rng.usize(1, reqs.len() - 1), rng.chance(1, 2), rng.chance(1, 2), rng.below(4) as u8, rng.chance(1, 2)))
+        } else {
+            None
+        };
+        Script { arm: arm.to_string(), cfg, reqs, crypto_switch, cookie_switch }
     }
 
     fn run(script: &Script, tape: &mut Tape, keep_log: bool) -> RunOut {
@@ -2169,7 +2242,7 @@ impl Sim for SesSim {
                 t.reqs[i].advance_ms = 0;
                 c.push(t);
             }
-            if matches!(r.present, Present::Older(_) | Present::Garbage) {
+            if matches!(r.present, Present::Older(_) | Present::Garbage | Present::Forged(_)) {
                 let mut t = s.clone();
                 t.reqs[i].present = Present::Latest;
                 c.push(t);
@@ -2236,6 +2309,11 @@ impl Sim for SesSim {
         if s.crypto_switch.is_some() {
             let mut t = s.clone();
             t.crypto_switch = None;
+            c.push(t);
+        }
+        if s.cookie_switch.is_some() {
+            let mut t = s.clone();
+            t.cookie_switch = None;
             c.push(t);
         }
         if s.cfg.cookie_serde_omit.is_some() {
